@@ -671,7 +671,9 @@ func pick(u *uni.Universe, pkg string, cands []*uni.Version) (want, alt *uni.Ver
 				if pv != nil && pv.IsPrerelease() {
 					// Ambiguous when the package also has releases.
 					for _, w := range u.Of(pkg) {
-						if pw, _ := semver.NPM.Parse(w.Version); pw != nil && !pw.IsPrerelease() {
+						// Anything that is not a prerelease counts, a version
+						// string that is not SemVer included (as in C12's order).
+						if pw, _ := semver.NPM.Parse(w.Version); pw == nil || !pw.IsPrerelease() {
 							return v, highest(), false
 						}
 					}
